@@ -959,6 +959,59 @@ def rule_basis_restored(ctx: Ctx) -> None:
         raise AnalysisError("measure.basis-restored: no measure_* function found")
 
 
+# --------------------------------------------------------------------------- sibling.xz-rowops
+
+
+def rule_xz_rowops(ctx: Ctx, rels: List[str]) -> None:
+    """sibling.xz-rowops: a generator is one row of the X block *and* the same row of the Z block.  Wherever a function applies a row
+    operation (row_swap / add_rows) to an X matrix it applies the same operation with the same row arguments to the matching Z matrix
+    (names that differ only in x / z), in the same order — helpers included, since the pairing is judged inside every function."""
+    import re as _re
+    repo = ctx.repo
+    n = 0
+    for rel in rels:
+        m = repo.module(rel)
+        for fn in [f for f in ast.walk(m.tree) if isinstance(f, ast.FunctionDef)]:
+            seqs = {}
+            for a in sorted([x for x in ast.walk(fn) if isinstance(x, ast.Assign)], key=lambda x: (x.lineno, x.col_offset)):
+                if len(a.targets) != 1 or not isinstance(a.value, ast.Call):
+                    continue
+                op = call_attr(a.value) or getattr(a.value.func, "id", None)
+                if op not in ("row_swap", "add_rows") or not a.value.args:
+                    continue
+                t = norm(a.targets[0])
+                if norm(a.value.args[0]) != t:
+                    continue
+                mt = _re.search(r"(^|[._])([xz])(_?mat(rix)?)$", t)
+                if not mt:
+                    continue
+                side = mt.group(2)
+                stem = t[:mt.start(2)] + "?" + t[mt.end(2):]
+                seqs.setdefault(stem, {"x": [], "z": []})[side].append((op, tuple(norm(x) for x in a.value.args[1:]), a))
+            for stem, d in seqs.items():
+                n += 1
+                ctx.touch(m, fn)
+                xs = [(o, ar) for o, ar, _ in d["x"]]
+                zs = [(o, ar) for o, ar, _ in d["z"]]
+                if xs == zs:
+                    ctx.ok("sibling.xz-rowops", m, fn, what=f"{qualname(fn)}: {len(xs)} row operation(s) mirrored on X and Z")
+                    continue
+                bad = None
+                for i in range(max(len(xs), len(zs))):
+                    if i >= len(xs) or i >= len(zs) or xs[i] != zs[i]:
+                        bad = i
+                        break
+                node = (d["z"][bad][2] if bad < len(d["z"]) else d["x"][bad][2])
+                xa = f"{xs[bad][0]}({', '.join(xs[bad][1])})" if bad < len(xs) else "nothing"
+                za = f"{zs[bad][0]}({', '.join(zs[bad][1])})" if bad < len(zs) else "nothing"
+                ctx.fail("sibling.xz-rowops", m, node,
+                         f"{qualname(fn)} applies {xa} to the X block and {za} to the Z block (`{stem.replace('?', 'x')}` / `{stem.replace('?', 'z')}`): the two halves "
+                         f"of the generators are no longer combined in the same way, so the rows stop describing products of the original generators",
+                         func=qualname(fn), construct=f"{qualname(fn)}: X / Z row operations differ")
+    if n == 0:
+        raise AnalysisError("sibling.xz-rowops: no paired row operation found")
+
+
 # --------------------------------------------------------------------------- size.stale-per-branch
 
 # tableau functions that change the number of qubits of the tableau they are given *in place* (confirmed by reading clifford.py: they
